@@ -243,3 +243,117 @@ Definition command_line (line0 : str) : res (option (str * str)) :=
   q2 <- back_up (S (length line)) line p2 (length line) ;;
   params <- substr line p2 (q2 - p2) ;;
   Ok (Some (cmd, params)).
+
+(* ------------------------------------------------------------------------------------------------
+   CPPManifest::save_expansion: the replacement list of a #define is cut into nodes (text, parameter, __VA_OPT__ group).
+   All index arithmetic is size_t; the one subtraction that can wrap is  p - 1 - start  (written out below). *)
+Inductive node := Node (parm : option nat) (expand stringify paste optional : bool) (text : str) (nested : list node).
+
+Definition mk_text (s : str) (paste : bool) : node := Node None (negb paste) false paste false s [].
+Definition mk_parm (n : nat) (strfy paste : bool) : node := Node (Some n) (negb strfy && negb paste) strfy paste false [] [].
+Definition mk_nested (l : list node) (strfy paste : bool) : node := Node None (negb strfy && negb paste) strfy paste true [] l.
+Definition no_expand (n : node) : node := match n with Node p _ s pa o t l => Node p false s pa o t l end.
+Fixpoint set_last_noexpand (acc : list node) : list node :=
+  match acc with [] => [] | [x] => [no_expand x] | x :: r => x :: set_last_noexpand r end.
+
+Definition is_ident_start (c : byte) : bool := isalpha c || beq c c_us.
+Definition is_ident_char (c : byte) : bool := isalnum c || beq c c_us.
+(* a pp-number after its first digit: alnum _ . and a digit separator followed by alnum *)
+Fixpoint number_len (s : str) : nat :=
+  match s with
+  | c :: r =>
+      if isalnum c || beq c c_us || beq c c_dot then S (number_len r)
+      else if beq c c_squote then (match r with c2 :: _ => if isalnum c2 then S (number_len r) else 0 | [] => 0 end)
+      else 0
+  | [] => 0
+  end.
+(* the body of a literal after the opening quote: up to the closing quote, a backslash takes the next byte with it;
+   returns how far p moves (including the closing quote when there is one) *)
+Fixpoint literal_len (fuel : nat) (quote : byte) (s : str) : nat :=
+  match fuel with
+  | 0 => 0
+  | S f =>
+      match s with
+      | [] => 0
+      | c :: r =>
+          if beq c quote then 1
+          else if beq c c_bslash then (match r with _ :: r2 => 2 + literal_len f quote r2 | [] => 1 end)
+          else S (literal_len f quote r)
+      end
+  end.
+(* the nesting scan of __VA_OPT__( ... ): returns how far p moves from start *)
+Fixpoint opt_len (s : str) (nesting : nat) : nat :=
+  match s with
+  | [] => 0
+  | c :: r =>
+      match nesting with
+      | 0 => 0
+      | S n' => if beq c c_lparen then S (opt_len r (S nesting)) else if beq c c_rparen then S (opt_len r n') else S (opt_len r nesting)
+      end
+  end.
+
+Fixpoint find_param (names : list str) (ident : str) (i : nat) : option nat :=
+  match names with [] => None | n :: r => if str_eqb n ident then Some i else find_param r ident (S i) end.
+
+Definition s_va_args : str := [95;95;86;65;95;65;82;71;83;95;95]%N.     (* __VA_ARGS__ *)
+Definition s_va_opt : str := [95;95;86;65;95;79;80;84;95;95]%N.         (* __VA_OPT__ *)
+
+(* push the text between last and q when there is some *)
+Definition flush (exp : str) (last q : nat) (paste : bool) (acc : list node) : res (list node * bool) :=
+  if Nat.eqb last q then Ok (acc, paste)
+  else t <- substr exp last (q - last) ;; Ok (acc ++ [mk_text t paste], false).
+
+(* the scanning loop; [rec] parses the inside of a __VA_OPT__ group *)
+Fixpoint se_loop (rec : str -> res (list node)) (names : list str) (variadic : option nat) (exp : str)
+                 (fuel p last : nat) (strfy paste : bool) (acc : list node) {struct fuel} : res (list node) :=
+  match fuel with
+  | 0 => Fuel
+  | S f =>
+      let loop := se_loop rec names variadic exp f in
+      if negb (p <? length exp) then
+        r <- flush exp last p paste acc ;; Ok (fst r)
+      else
+      c <- at_ exp p ;;
+      if is_ident_start c then
+        let q := p in
+        let p1 := scan is_ident_char exp (S p) in
+        ident <- substr exp q (p1 - q) ;;
+        if str_eqb ident s_va_opt then
+          let p2 := scan isspace exp p1 in
+          c2 <- (if p2 <? length exp then at_ exp p2 else Ok 0%N) ;;
+          if (p2 <? length exp) && beq c2 c_lparen then
+            let start := S p2 in
+            let p3 := start + opt_len (skipn start exp) 1 in
+            r <- flush exp last q paste acc ;;
+            (* exp.substr(start, p - 1 - start): the length wraps to npos when p = start *)
+            sub <- substr exp start (if Nat.eqb p3 start then length exp else p3 - 1 - start) ;;
+            nested <- rec sub ;;
+            loop p3 p3 false false (fst r ++ [mk_nested nested strfy (snd r)])
+          else loop p2 last strfy paste acc          (* not followed by '(' : an ordinary identifier *)
+        else
+          let pnum := if str_eqb ident s_va_args then variadic else find_param names ident 0 in
+          match pnum with
+          | Some n =>
+              r <- flush exp last q paste acc ;;
+              loop p1 p1 false false (fst r ++ [mk_parm n strfy (snd r)])
+          | None => loop p1 last strfy paste acc
+          end
+      else if isdigit c then loop (S p + number_len (skipn (S p) exp)) last strfy paste acc
+      else if is_quote c then loop (S p + literal_len (length exp) c (skipn (S p) exp)) last strfy paste acc
+      else if beq c c_hash then
+        r <- flush exp last p paste acc ;;
+        c2 <- (if S p <? length exp then at_ exp (S p) else Ok 0%N) ;;
+        if (S p <? length exp) && beq c2 c_hash
+        then loop (S (S p)) (S (S p)) strfy true (set_last_noexpand (fst r))
+        else loop (S p) (S p) true (snd r) (fst r)
+      else if isspace c then
+        r <- flush exp last p paste acc ;;
+        loop (S p) (S p) strfy (snd r) (fst r)
+      else loop (S p) last strfy paste acc
+  end.
+
+Fixpoint save_expansion (dfuel : nat) (names : list str) (variadic : option nat) (exp : str) : res (list node) :=
+  match dfuel with
+  | 0 => Fuel
+  | S df => se_loop (save_expansion df names variadic) names variadic exp (S (length exp)) 0 0 false false []
+  end.
